@@ -11,7 +11,7 @@ Every input goes through EVERY command of the CLI (parse --as x4, translate --wi
 through `str::parse::<T>()` of all 43 node types in-process (harness op `parse_any`).
 
 A crash = exit status 101, "panicked at" on stderr, death by signal, or a timeout.  Crashes inside
-the recorded classes (known_findings.jsonl: F3a, F11, F15; F3b and F14 are repaired) are counted; the class is
+the recorded classes (known_findings.jsonl: F3a, F11, F15; F3b, F14, F16, F19 are repaired, their inputs kept) are counted; the class is
 recognised from the INPUT (e.g. a digit run beyond isize::MAX) together with the symptom, so that
 a different crash on the same input, or the same symptom on another kind of input, is still a
 VIOLATION whose replay is the input file and the command.
@@ -25,6 +25,11 @@ import clilib
 from clilib import vlib, log, bump
 import c16lib
 from c16lib import *  # noqa: F401,F403  (classify, mutate, commands, run_input, ...)
+
+# (text, suffix of the file of a shipped verify task it replaces)
+FIXED_TASK_INPUTS = [
+    ("output: q/9223372036854775806.\n", "external_equivalence/trivial/first_order/first_order.ug"),
+]
 
 # ------------------------------------------------------------------ the hook
 
@@ -54,6 +59,19 @@ def extra(ctx, cfg, results, inprocess=True):
              "p(X) :- X = -9223372036854775808.\n", "forall X$i (X$i = -9223372036854775808 -> p(X$i)).\n"]
     for t in fixed:
         inputs.append((t.encode(), None, "fixed"))
+    # fixed inputs that replace one file of a shipped task (regression inputs of repaired findings):
+    # F19 (18b2e85; introduced by the repair of F17, 70e6ace): the empty completed definition built for a declared
+    # output predicate that occurs on neither side was as large as its arity - `output: q/9223372036854775806.` as the
+    # user guide of trivial/first_order made verify hang (the check found it by mutating an example user guide; a
+    # recurrence shows up as a timeout of verify/task/external on this input)
+    for text, suffix in FIXED_TASK_INPUTS:
+        for eq, flags, files in tasks:
+            which = [k for k, f in enumerate(files) if f.endswith(suffix)]
+            if which:
+                inputs.append((text.encode(), (eq, flags, files, which[0]), "fixed"))
+                break
+        else:
+            ctx.notes.append(f"fixed task input: no shipped task with a file {suffix}")
     # every keyword / operator / bracket of a small file of each type, repeated 3 (5) times
     repeated = cli_repeat_corpus()
     for t in repeated:
